@@ -47,6 +47,9 @@ CONSTANTS
     Protos,     \* subset of {"http", "tcp"}
     Others,     \* classes of OTHER options the same target carries next to its rules ("" = none): redirect=, strip=,
                 \* host=, ... valid or not.  They say nothing about who may use the route.
+    Redirects,  \* those of them that make the route answer with a redirect (redirect=<3xx>) instead of forwarding:
+                \* such a route never contacts an upstream, but WHO is told the new location is gated all the same -
+                \* a client the rules or the scheme reject gets 403 / 401, not the 30x
     ValidOthers, \* those of them that are documented and well-formed (incl. "")
     MaxItems,   \* bound on Len(allow) + Len(deny)
     MaxXff,     \* bound on the JUDGED part of the X-Forwarded-For chain
@@ -91,7 +94,7 @@ AuthOK(q) == q.proto = "tcp" \/ Authorized(q.scheme, q.creds)
 \* terminal gate states the statement permits for a case
 Outcomes(r, q) ==
     IF q.proto = "http"
-    THEN (IF MayAdmit(r, q) /\ AuthOK(q) THEN {"forward"} ELSE {})
+    THEN (IF MayAdmit(r, q) /\ AuthOK(q) THEN {IF r.other \in Redirects THEN "redirect" ELSE "forward"} ELSE {})
          \cup (IF ~MustAdmit(r, q) THEN {"deny403"} ELSE {})
          \cup (IF ~AuthOK(q) THEN {"deny401"} ELSE {})
     ELSE (IF MayAdmit(r, q) THEN {"dial"} ELSE {})
@@ -152,8 +155,8 @@ AuthDeny == /\ pc = "checking" /\ "auth" \in todo
             /\ UNCHANGED <<phase, rules, req, todo, hits>>
 \* the only step that touches the upstream
 Forward == /\ pc = "checking" /\ todo = {}
-           /\ pc' = IF req.proto = "http" THEN "forward" ELSE "dial"
-           /\ hits' = hits + 1
+           /\ pc' = IF req.proto = "http" THEN (IF rules.other \in Redirects THEN "redirect" ELSE "forward") ELSE "dial"
+           /\ hits' = IF req.proto = "http" /\ rules.other \in Redirects THEN hits ELSE hits + 1
            /\ UNCHANGED <<phase, rules, req, todo>>
 
 Gate == Lookup \/ AccessPass \/ AccessDeny \/ AuthPass \/ AuthDeny \/ Forward
@@ -166,14 +169,14 @@ Spec == Init /\ [][Next]_vars
 
 -----------------------------------------------------------------------------
 \* properties
-Terminal == {"forward", "dial", "deny403", "deny401", "close"}
+Terminal == {"forward", "redirect", "dial", "deny403", "deny401", "close"}
 TypeOK == /\ phase \in {"rules", "req", "gate"}
           /\ pc \in {"idle", "lookup", "checking"} \cup Terminal
           /\ hits \in 0..1
 
 \* C12, first sentence
-GateSafe == pc \in {"forward", "dial"} => MayAdmit(rules, req) /\ AuthOK(req)
-DeniedUntouched == pc \in {"deny403", "deny401", "close"} => hits = 0
+GateSafe == pc \in {"forward", "dial", "redirect"} => MayAdmit(rules, req) /\ AuthOK(req)
+DeniedUntouched == pc \in {"deny403", "deny401", "close", "redirect"} => hits = 0
 ForwardedOnce == pc \in {"forward", "dial"} => hits = 1
 \* the declarative outcome set handed to the harness is exactly what the gate can reach
 OutcomeSound == pc \in Terminal => pc \in Outcomes(rules, req)
